@@ -44,6 +44,16 @@ Theorem C02_chain_step_shape : forall path (u : string -> list string) its fresh
 Proof. exact chain_step_shape. Qed.
 Print Assumptions C02_chain_step_shape.
 
+(* chains of any length: after regenerating with the models f1, f2, ..., fn in turn, the directory holds the fresh file
+   of fn with, under each tag, the ORIGINAL block iff that tag name was emitted by every model of the chain so far;
+   text outside tags is fn's alone *)
+Theorem C02_chain : forall path ms its (u : string -> list string),
+  wfb its = true -> items_okb its = true -> (forall k, block_ok (u k) = true) ->
+  Forall (fun f => wf_fresh_file f = true) ms ->
+  chain path (on_disk u its) ms = on_disk (snd (chain_end its u ms)) (fst (chain_end its u ms)).
+Proof. exact chain_evolution. Qed.
+Print Assumptions C02_chain.
+
 Definition ex_old : list (item string) :=
   [Plain (bs [97;10]); Pair (bs [47;47;32;123;123;123;85;83;69;82;95;88;125;125;125;10]) (bs [47;47;32;123;123;123;85;83;69;82;95;88;125;125;125;10]);
    Pair (bs [35;123;123;123;85;83;69;82;95;89;10]) (bs [35;123;123;123;85;83;69;82;95;89;10])].
